@@ -6,6 +6,7 @@ import (
 	"go/ast"
 	"go/token"
 	"go/types"
+	"math"
 )
 
 func init() {
@@ -54,6 +55,17 @@ is never recorded â€” R of 20 bases and S = R + 20 g: the index of S holds 20 â†
 			if bound == nil {
 				s.Pass(nil, key, fd.Pos(), "the levels are recorded without a running upper bound")
 				return
+			}
+			// a bound that starts at the largest int lets every distance through
+			for _, st := range fd.Body.List {
+				if as, ok := st.(*ast.AssignStmt); ok && as.Tok == token.DEFINE && len(as.Lhs) == 1 && len(as.Rhs) == 1 {
+					if id, ok := as.Lhs[0].(*ast.Ident); ok && info.ObjectOf(id) == bound {
+						if v, isC := constInt(info, as.Rhs[0]); isC && v == math.MaxInt64 {
+							s.Pass(nil, key, at, "the bound starts at the largest int: every level is recorded")
+							return
+						}
+					}
+				}
 			}
 			// initial value of the bound, by linear arithmetic over the statements of the body up to the loop
 			env := &linEnv{info: info, vars: map[types.Object]linForm{}, defs: map[types.Object][]ast.Expr{}, atoms: map[string]bool{}, lens: map[string]bool{}, elems: map[string]linForm{}}
